@@ -155,6 +155,7 @@ fn evaluate_do_block_expr(
         }
 
         // Evaluate the value (allow shadowing - no check for existing binding)
+        let heap_len_before = heap.borrow().len();
         let val = evaluate_ast(
             value,
             Rc::clone(&heap),
@@ -166,11 +167,14 @@ fn evaluate_do_block_expr(
         // Set lambda name if assigning a lambda
         if let Value::Lambda(lambda_ptr) = val {
             let mut borrowed_heap = heap.borrow_mut();
-            if let Some(HeapValue::Lambda(lambda_def)) = borrowed_heap.get_mut(lambda_ptr.index())
+            if lambda_ptr.index() >= heap_len_before
+                && let Some(HeapValue::Lambda(lambda_def)) =
+                    borrowed_heap.get_mut(lambda_ptr.index())
                 && lambda_def.name.is_none()
             {
-                // Only the first binding names a function: giving it a second name later
-                // (`g = f`) must not change how f behaves
+                // Only a function created by this very statement is named by it: binding a
+                // function that already existed (`g = f`, `k = fs[0]`) must not change how
+                // it behaves
                 lambda_def.name = Some(ident.clone());
             }
         }
@@ -447,6 +451,7 @@ pub fn evaluate_ast(
                 ));
             }
 
+            let heap_len_before = heap.borrow().len();
             let val = evaluate_ast(
                 value,
                 Rc::clone(&heap),
@@ -467,12 +472,14 @@ pub fn evaluate_ast(
             // Set lambda name if assigning a lambda
             if let Value::Lambda(lambda_ptr) = val {
                 let mut borrowed_heap = heap.borrow_mut();
-                if let Some(HeapValue::Lambda(lambda_def)) =
-                    borrowed_heap.get_mut(lambda_ptr.index())
+                if lambda_ptr.index() >= heap_len_before
+                    && let Some(HeapValue::Lambda(lambda_def)) =
+                        borrowed_heap.get_mut(lambda_ptr.index())
                     && lambda_def.name.is_none()
                 {
-                    // Only the first binding names a function: giving it a second name
-                    // later (`g = f`) must not change how f behaves
+                    // Only a function created by this very statement is named by it:
+                    // binding a function that already existed (`g = f`, `k = fs[0]`) must
+                    // not change how it behaves
                     lambda_def.name = Some(ident.clone());
                 }
             }
